@@ -11,6 +11,7 @@ func vNondetHexString(name string, n int) string { return string(make([]byte, n)
 func vAssume(b bool)                             {}
 func vObserve(name string, v interface{})        {}
 func vFreeze(v interface{})                      {}
+func vHavoc(v interface{}, name string)          {}
 func vTagArg(v interface{}, name string)         {}
 func vTagRecv(v interface{}, name string)        {}
 func vMark()                                     {}
@@ -18,6 +19,7 @@ func vMark()                                     {}
 // vScalar returns a scalar whose four Montgomery limbs are arbitrary words.
 func vScalar(name string) *Scalar {
 	s := NewScalar()
+	vHavoc(s, name) // whatever else a Scalar may hold besides its limbs is arbitrary
 	s.S[0] = vNondetU64(name + "0")
 	s.S[1] = vNondetU64(name + "1")
 	s.S[2] = vNondetU64(name + "2")
